@@ -110,3 +110,42 @@ Example c06_example :
              EFrame (DOk 0 10 false []); ESendDone 3 true; EFrame (DOk 1 5 false [])] in
   sends (outs es) = [(1, 0, 10); (3, 1, 5); (2, 2, 52)].
 Proof. vm_compute. reflexivity. Qed.
+
+(* ---- the positive halves (proofs/EzspProtoPos_proofs.v) ------------------------------------------------ *)
+Require Import BV.proofs.EzspProtoPos_proofs.
+
+(* the response carrying the sequence number and the frame id a waiting call registered completes it with exactly
+   that payload, and the call is over *)
+Theorem c06_own_response_returns : forall st s f vs id c, reachable st ->
+  aw_get s (p_awaiting st) = Some (f, id) -> call_get id (p_calls st) = Some c -> k_stage c = PWaiting ->
+  In (OReturn id vs) (snd (proto_step st (EFrame (DOk s f false vs)))) /\
+  call_get id (p_calls (fst (proto_step st (EFrame (DOk s f false vs))))) = None.
+Proof. exact own_response_returns. Qed.
+
+(* ... also when it is processed before send_data() has returned: it is recorded and returned then *)
+Theorem c06_response_before_send_returns : forall st s f vs id c, reachable st ->
+  aw_get s (p_awaiting st) = Some (f, id) -> call_get id (p_calls st) = Some c -> k_stage c = PSending ->
+  In (OReturn id vs)
+     (snd (proto_step (fst (proto_step st (EFrame (DOk s f false vs)))) (ESendDone id true))).
+Proof. exact response_then_send_done_returns. Qed.
+
+Theorem c06_invalid_command_raises : forall st s f f' vs id c, reachable st ->
+  aw_get s (p_awaiting st) = Some (f, id) -> call_get id (p_calls st) = Some c -> k_stage c = PWaiting ->
+  In (ORaise id KInvalidCommand) (snd (proto_step st (EFrame (DOk s f' true vs)))) /\
+  call_get id (p_calls (fst (proto_step st (EFrame (DOk s f' true vs))))) = None.
+Proof. exact invalid_command_raises. Qed.
+
+Theorem c06_no_reply_times_out : forall st id c, reachable st -> call_get id (p_calls st) = Some c ->
+  k_stage c = PWaiting ->
+  In (ORaise id KTimeout) (snd (proto_step st (ETimeout id))) /\
+  call_get id (p_calls (fst (proto_step st (ETimeout id)))) = None.
+Proof. exact no_reply_times_out. Qed.
+
+(* whenever the holder of the send slot ends in a step, the head of the queue is sent in that very step under the
+   next sequence number and holds the slot *)
+Theorem c06_slot_handed_on : forall st e id o p n id' q c', reachable st ->
+  p_holder st = Some id -> p_queue st = (p, n, id') :: q -> call_get id' (p_calls st) = Some c' ->
+  In o (snd (proto_step st e)) -> ends id o ->
+  In (OSend id' (p_seq st) (k_fid c')) (snd (proto_step st e)) /\
+  p_holder (fst (proto_step st e)) = Some id' /\ p_queue (fst (proto_step st e)) = q.
+Proof. exact slot_handed_on. Qed.
